@@ -135,7 +135,10 @@ def run(ctx):
         else:
             for code, msg in error_keys(err):
                 rm.violate("%s: %s" % (unit, re.sub(r"`[\w:]*::(\w+_\w+|o\d\d)::", "`<mod>::", msg)[:100]), "derive output does not compile: [%s] %s" % (code, msg))
-    rn.require(3, "instances")
+    # static half: resolve every path the templates emit (universal over grammars, no fixture needed)
+    from .. import tnames
+    tnames.run(rn, gen, fs["pest_typed"])
+    rn.require(25, "instances")
     rm.require(1, "fixtures")
 
     # ---- options influence representation only (type-level facts per rule equal across option sets)
